@@ -28,20 +28,36 @@ THEOREMS = ['C01_flag_den', 'C01_expand_surfs_den', 'C01_expand_surfs_errors',
             'C01_remove_empty_sound', 'C01_prune_sound', 'C01_partition',
             'C01_partition_points', 'C01_print_read', 'C01_partition_file',
             'C01_partition_file_points', 'C01_partition_file_points_linked',
-            'C01_cells_linked', 'C01_partition_linked', 'C01_partition_fill_linked']
+            'C01_cells_linked', 'C01_partition_linked', 'C01_partition_fill_linked',
+            'C01_partition_fill_written_linked', 'C01_cards_fill_linked']
 TRUSTED = [
-    'hand-written model coq/C01/Model.v (modelled, tied by execution only)',
-    'surfaces are abstract ids: what a T4 surface id means geometrically, and '
-    'that a collection surface is the union/intersection of its facets, '
-    'belongs to layer S (C02-C04)',
-    'TRIPOLI-4 reading of VOLU/EQUA/UNION/INTE/FICTIVE (DESIGN Appendix B)',
+    'hand-written model coq/C01/Model.v + Printer.v (modelled, tied by execution: '
+    'whole volume table, counter, caches, pruning, printed VOLU lines token by '
+    'token)',
+    'what a T4 surface id means geometrically: the point theorems take ANY real '
+    'functions fval (helper planes x-1 / x+1); that the T4 surfaces a MCNP '
+    'surface became give it the same sense (surf_agree / matching) is layer S '
+    '(C02-C04), assumed in the linked theorems',
+    'TRIPOLI-4 reading of VOLU/EQUA/UNION/INTE/FICTIVE (DESIGN Appendix B), '
+    'stated once as Vden (sense assignments) and Pin (points)',
+    'character level of the file (blanks, the text of the // idorigin comment, '
+    'SURF lines): tokens and the (filler, container) pairs are modelled, the '
+    'text is read back by impl.T4File (C08)',
     'harness: generators, impl.T4File reader, mcnpref/t4eval/geomcheck '
     'oracles, PEG shim replacing TatSu',
 ]
 ASSUMPTIONS = [
-    'cell references are acyclic (the model uses fuel = number of cells + 1)',
-    'trees reaching pot_convert contain no complement node (pot_complement, '
-    'C11, has run) and surface ids are non-zero',
+    'cell references are acyclic (the model uses fuel = number of cells + 1; a '
+    'cycle is RecursionError in the code, EFuel in the model)',
+    'DISCHARGED by links: no complement node reaches pot_flag (C11), cden is '
+    'the region of every cell (C11 for decks without FILL, C05 for the FILL '
+    'chain), merged surfaces have equal senses (C13), the generated cell is '
+    'converted iff its container has importance <> 0 (C05 GenOK), provenance of '
+    'the written volume (C13 over C01 definitions)',
+    'still assumed in the linked theorems: the deck and `matching` are well '
+    'formed (every surface has an entry, ids <> 0, facets >= 1), every descent '
+    'has a value at the point, universes are partitions, no lattices, no TRCL '
+    'on cell cards when the C11 and C05 links are composed',
 ]
 HEADER = ('From Coq Require Import List ZArith Bool.\n'
           'From T4V Require Import C01.Model C01.Printer C01.Exec.\n'
